@@ -7,6 +7,7 @@ import (
 	"fmt"
 	"io"
 	"log"
+	"math"
 	"os"
 	"slices"
 	"sync"
@@ -56,6 +57,9 @@ const (
 
 	cacheFileMagic   = "P2CC"
 	cacheFileVersion = 1
+
+	// stream id written over the header of a record that was invalidated
+	invalidStreamID = math.MaxUint64
 )
 
 func readVarInt(r io.ByteReader) (uint64, int, error) {
@@ -281,6 +285,15 @@ func NewCacheFile(cachePath string) (*cacheFile, error) {
 		}
 		res.fileSize += streamHeaderSize
 
+		if streamSection.StreamID == invalidStreamID {
+			// the record was invalidated, its space is free
+			if res.freeSize == 0 {
+				res.freeStart = res.fileSize - streamHeaderSize
+			}
+			res.freeSize += streamHeaderSize + int64(streamSize)
+			res.fileSize += int64(streamSize)
+			continue
+		}
 		if info, ok := res.streamInfos[streamSection.StreamID]; ok {
 			if res.freeSize == 0 || res.freeStart > info.offset-streamHeaderSize {
 				res.freeStart = info.offset - streamHeaderSize
@@ -714,6 +727,7 @@ func (cachefile *cacheFile) setData(streamID uint64, streamTime time.Time, conve
 	}
 
 	// Remember where to look for this stream.
+	oldInfo, replaced := cachefile.streamInfos[streamID]
 	cachefile.streamInfos[streamID] = streamInfo{
 		offset: cachefile.fileSize + streamHeaderSize,
 		size:   streamSize,
@@ -724,7 +738,25 @@ func (cachefile *cacheFile) setData(streamID uint64, streamTime time.Time, conve
 	}
 	cachefile.fileSize += streamHeaderSize + int64(streamSize)
 
+	if replaced {
+		// the previous record of this stream is dead now
+		cachefile.freeRecord(oldInfo)
+	}
 	return nil
+}
+
+// freeRecord accounts the space of a record as free and marks the record as
+// invalid in the file, otherwise it would be loaded again at the next start.
+func (cachefile *cacheFile) freeRecord(info streamInfo) {
+	cachefile.freeSize += int64(info.size) + streamHeaderSize
+	if cachefile.freeStart > info.offset-streamHeaderSize {
+		cachefile.freeStart = info.offset - streamHeaderSize
+	}
+	header := [streamHeaderSize]byte{}
+	binary.LittleEndian.PutUint64(header[:], invalidStreamID)
+	if _, err := cachefile.file.WriteAt(header[:], info.offset-streamHeaderSize); err != nil {
+		log.Printf("Failed to invalidate a record in converter cache file(%q): %v\n", cachefile.cachePath, err)
+	}
 }
 
 func (cachefile *cacheFile) InvalidateChangedStreams(streams *bitmask.LongBitmask) bitmask.LongBitmask {
@@ -738,10 +770,7 @@ func (cachefile *cacheFile) InvalidateChangedStreams(streams *bitmask.LongBitmas
 		// delete the stream from the in-memory index
 		// it will be re-added when the stream is converted again
 		if info, ok := cachefile.streamInfos[uint64(streamID)]; ok {
-			cachefile.freeSize += int64(info.size) + streamHeaderSize
-			if cachefile.freeStart > info.offset-streamHeaderSize {
-				cachefile.freeStart = info.offset - streamHeaderSize
-			}
+			cachefile.freeRecord(info)
 			delete(cachefile.streamInfos, uint64(streamID))
 			invalidatedStreams.Set(streamID)
 		}
